@@ -30,7 +30,8 @@ Inductive discharge :=
 | D_WiringOnly      (* process-level state (package variable or keeper-struct field of map / slice / chan / pointer
                        type) that is assigned while the app is wired (init, NewKeeper, AddRoute, RegisterExternalAddress)
                        and only read during block execution: no cache, nothing that depends on which context
-                       branches ran or on whether the process was restarted — by reading                          *)
+                       branches ran or on whether the process was restarted.  Discharged by the finite check
+                       M_State.writers_wiring_only over the generated lists of writers and of their callers      *)
 | D_Telemetry.      (* a float constant handed to a telemetry counter; metrics are not state — by reading *)
 
 Definition allow : list (string * string * site_kind * Z * string * discharge) :=
